@@ -221,17 +221,25 @@ def cmd_try(a):
 
 
 def cmd_table(a):
+    """Markdown table for DESIGN.md Appendix B: per seeded change the latest run of every check."""
     rows = []
     for sid in sorted(os.listdir(SEEDED)):
         m = load_meta(os.path.join(SEEDED, sid))
         if not m:
             continue
-        caught = [r for r in m.get("runs", []) if r.get("caught")]
-        missed = [r for r in m.get("runs", []) if not r.get("caught")]
-        rows.append("| %s | %s | %s | %s | %s |" % (sid, m.get("property", ""), m.get("summary", "")[:110].replace("|", "/"),
-                    ", ".join("%s %s %ds (%s)" % (r["check"], r["tier"], r["seconds"], ",".join(r["causes"][:2])) for r in caught) or "-",
-                    ", ".join("%s %s" % (r["check"], r["tier"]) for r in missed) or "-"))
-    print("| id | property | change | caught by (tier, time to report, cause) | not caught by |\n|---|---|---|---|---|")
+        latest = {}
+        for r in m.get("runs", []):
+            latest[(r["check"], r["tier"])] = r  # later runs replace earlier ones
+        caught = [r for r in latest.values() if r.get("caught")]
+        missed = [r for r in latest.values() if not r.get("caught")]
+        conf = m.get("confirmed", {})
+        ok = all(conf.get(k) for k in ("applies", "builds", "demo_passes_on_unchanged", "demo_fails_on_changed", "existing_tests_pass"))
+        rows.append("| %s | %s | %s | %s | %s | %s |" % (
+            sid, (m.get("summary", "") or "").replace("|", "/")[:160], (m.get("needs", "") or "").replace("|", "/")[:200],
+            "yes" if ok else ("partly: " + ", ".join(k for k in ("applies", "builds", "demo_passes_on_unchanged", "demo_fails_on_changed", "existing_tests_pass") if not conf.get(k)) if conf else "pending"),
+            "; ".join("%s %s in %ds (%s)" % (r["check"], r["tier"], r["seconds"], ", ".join(r["causes"][:2])) for r in sorted(caught, key=lambda r: r["check"])) or "-",
+            ((", ".join("%s %s" % (r["check"], r["tier"]) for r in missed) + ". ") if missed else "") + (m.get("history", "") or "")))
+    print("| id | change | needs, to manifest | confirmed | caught by (tier, seconds to report, cause) | notes |\n|---|---|---|---|---|---|")
     print("\n".join(rows))
     return 0
 
